@@ -448,6 +448,8 @@ fn build_matcher_tree(
     // multiple-character flags don't start with a double dash
     let mut i = arg_index;
     let mut invert_next_matcher = false;
+    // an operator or '!' has been read and the operand it applies to has not
+    let mut expecting_operand = false;
     while i < args.len() {
         let possible_submatcher = match args[i] {
             "-print" => Some(Printer::new(PrintDelimiter::Newline, None).into_box()),
@@ -781,6 +783,7 @@ fn build_matcher_tree(
                     )));
                 }
                 invert_next_matcher = !invert_next_matcher;
+                expecting_operand = true;
                 None
             }
             "-and" | "-a" => {
@@ -790,7 +793,15 @@ fn build_matcher_tree(
                         args[i]
                     )));
                 }
+                if expecting_operand {
+                    return Err(From::from(format!(
+                        "invalid expression; you have used a binary operator \
+                         '{}' with nothing before it.",
+                        args[i]
+                    )));
+                }
                 top_level_matcher.check_new_and_condition()?;
+                expecting_operand = true;
                 None
             }
             "-or" | "-o" => {
@@ -800,7 +811,15 @@ fn build_matcher_tree(
                         args[i]
                     )));
                 }
+                if expecting_operand {
+                    return Err(From::from(format!(
+                        "invalid expression; you have used a binary operator \
+                         '{}' with nothing before it.",
+                        args[i]
+                    )));
+                }
                 top_level_matcher.new_or_condition(args[i])?;
+                expecting_operand = true;
                 None
             }
             "," => {
@@ -810,7 +829,15 @@ fn build_matcher_tree(
                         args[i]
                     )));
                 }
+                if expecting_operand {
+                    return Err(From::from(format!(
+                        "invalid expression; you have used a binary operator \
+                         '{}' with nothing before it.",
+                        args[i]
+                    )));
+                }
                 top_level_matcher.new_list_condition()?;
+                expecting_operand = true;
                 None
             }
             "(" => {
@@ -949,6 +976,7 @@ fn build_matcher_tree(
             break;
         }
         if let Some(submatcher) = possible_submatcher {
+            expecting_operand = false;
             if invert_next_matcher {
                 top_level_matcher.new_and_condition(NotMatcher::new(submatcher));
                 invert_next_matcher = false;
